@@ -416,3 +416,105 @@ def rule_raw_read_none(ctx):
                    node=a)
     if n < 3:
         raise AnalysisError('A12.none: found only %d raw reads in the stream helpers' % n)
+
+
+# ------------------------------------------------------------------- W.segspec
+
+def _retag_assign(a):
+    """`x = <obj>.clone(tagSet=...)`"""
+    return isinstance(a, ast.Assign) and isinstance(a.value, ast.Call) and isinstance(a.value.func, ast.Attribute) and \
+        a.value.func.attr == 'clone' and any(k.arg == 'tagSet' for k in a.value.keywords)
+
+
+def rule_segment_handover(ctx):
+    """W.segspec: what the chunk loop of a chunking string encoder hands to `encodeFun` for a segment - the value, and the
+    spec if one is passed - has been re-tagged for segments (`.clone(tagSet=...)`, the tag set itself is W.segtag's business)
+    on EVERY path, whatever flavour of input the encoder was given (value object, Python value + spec, octets + spec): no
+    definition of the spec other than a re-tagging one reaches the call, in particular not the caller's own spec."""
+    from sa.cfg import reaching_defs, node_exprs
+    n = 0
+    for q in ('codec.ber.encoder.OctetStringEncoder.encodeValue', 'codec.ber.encoder.BitStringEncoder.encodeValue'):
+        f = ctx.func(q)
+        cfg = ctx.cfg(f)
+        params = f.params()
+        rd = reaching_defs(cfg, params)
+        loops = [l for l in walk_own(f.node) if isinstance(l, (ast.While, ast.For))]
+        calls = []
+        for l in loops:
+            for c in ast.walk(l):
+                if isinstance(c, ast.Call) and isinstance(c.func, ast.Name) and c.func.id == 'encodeFun' and len(c.args) >= 2:
+                    calls.append(c)
+        if not calls:
+            raise AnalysisError('chunk loop with an encodeFun call not found in %s' % f.short)
+        for c in calls:
+            node = [x for x in cfg.stmt_nodes() if any(c is y for e in node_exprs(x) for y in ast.walk(e))][0]
+            for role, arg in (('value', c.args[0]), ('spec', c.args[1])):
+                if isinstance(arg, ast.Constant) and arg.value is None and role == 'spec':
+                    n += 1
+                    ctx.ob('W.segspec', f, 'segment %s handed to encodeFun is re-tagged' % role, True,
+                           'no spec is handed on: the segment value carries its own tags', node=c)
+                    continue
+                names = [x.id for x in ast.walk(arg) if isinstance(x, ast.Name) and isinstance(x.ctx, ast.Load)]
+                # the variable that carries the tags: the spec itself, or the object the chunk is sliced from
+                carriers = [v for v in names if v not in ('start', 'stop', 'pos', 'maxChunkSize')]
+                if role == 'value':
+                    # octets sliced from the measured substrate carry no tags; a sliced value object does
+                    carriers = [v for v in carriers if any(_retag_assign(d.ast) for d in rd[node].get(v, ()) if d.kind == 'stmt')
+                                or v in params]
+                    if not carriers:
+                        continue
+                bad = []
+                for v in carriers:
+                    for d in rd[node].get(v, ()):
+                        if d.kind == 'stmt' and _retag_assign(d.ast):
+                            continue
+                        bad.append((v, 'the caller\'s `%s`' % v if d.kind == 'entry' else '`%s`' % (d.text()[:50])))
+                n += 1
+                ctx.ob('W.segspec', f, 'segment %s handed to encodeFun is re-tagged' % role, not bad,
+                       '%s reaches `%s` without having been re-tagged for segments: with octets (or a Python value) and an IMPLICITly or '
+                       'EXPLICITly tagged spec the segments carry the spec\'s tags instead of the universal one - other bytes than for '
+                       'the equivalent value object, and no decoder accepts them' % (bad[0][1], norm(c)[:60]) if bad else
+                       'only re-tagged definitions reach the call', node=c)
+    if n < 2:
+        raise AnalysisError('W.segspec: segment hand-over sites not found')
+
+
+# ------------------------------------------------------------------- A8.probe
+
+def _allows_eoo(call):
+    for k in call.keywords:
+        if k.arg == 'allowEoo' and isinstance(k.value, ast.Constant) and k.value.value:
+            return True
+        if k.arg is None and isinstance(k.value, ast.Call) and norm(k.value.func) == 'dict':
+            for kk in k.value.keywords:
+                if kk.arg == 'allowEoo' and not (isinstance(kk.value, ast.Constant) and not kk.value.value):
+                    return True
+    return False
+
+
+def rule_eoo_probe_boundary(ctx):
+    """A8.probe: the item decoder's end-of-octets probe (`allowEoo=True`) looks at the next two octets and takes `00 00` for
+    the end of the enclosing indefinite-length value.  That reading is right only at an element boundary: a `decodeFun`
+    call that re-enters an element whose header has already been read (it passes `state` along) must
+    not ask for the probe - the next octets are that element's CONTENTS, and contents may begin with `00 00` (an empty
+    indefinite-length SEQUENCE OF chosen in an untagged CHOICE)."""
+    dec = ctx.mod('codec.ber.decoder')
+    n = 0
+    for f in ctx.prog.all_functions():
+        if f.module is not dec:
+            continue
+        for c in walk_own(f.node):
+            if not (isinstance(c, ast.Call) and isinstance(c.func, ast.Name) and c.func.id == 'decodeFun'):
+                continue
+            if not _allows_eoo(c):
+                continue
+            n += 1
+            # (substrate, asn1Spec, tagSet, length, state): only `state` makes the item decoder skip the tag and length octets
+            mid = len(c.args) > 4 or any(k.arg == 'state' for k in c.keywords)
+            ctx.ob('A8.probe', f, 'end-of-octets probe requested at an element boundary: `%s`' % norm(c)[:60], not mid,
+                   'this call re-enters an element after its header (`state` is passed on) and still asks for the '
+                   'end-of-octets probe: contents that begin with 00 00 are taken for the end of the enclosing value '
+                   '(untagged CHOICE whose alternative is an empty indefinite-length SEQUENCE OF: `30 80 00 00` is refused)'
+                   if mid else 'fresh element', node=c)
+    if n < 6:
+        raise AnalysisError('A8.probe: found only %d decodeFun calls that allow end-of-octets' % n)
